@@ -19,7 +19,9 @@ EXTENDS TwigSyntax, Json
 CONSTANTS AllSubsetsUpTo     \* templates with at most this many delimiter sides get every subset D
 VARIABLE cs
 
-Sym(k) == Text(<<PadBase + k>>)
+SymBase == PadBase + 1048576         \* text symbols live above the pad tokens
+Sym(k) == Text(<<SymBase + k>>)
+IsSym(x) == x >= SymBase
 L12 == Lit(VL(<<VI(1), VI(2)>>))
 
 \* ---- corpus: every tag kind, opening / middle / closing tags ---------------------------
@@ -55,18 +57,22 @@ Ctx == ("x" :> VI(3)) @@ ("s" :> VS(<<97>>))
 \* a style maps symbol k to its text
 Letter(k) == 64 + k      \* A, B, C ...
 Styles == {"sp", "lf", "mix", "none", "onlyws", "inner"}
-TextOfSym(style, k) ==
-    CASE style = "sp"     -> <<cSP, Letter(k), cSP>>
-      [] style = "lf"     -> <<cLF, Letter(k), cLF>>
-      [] style = "mix"    -> <<cSP, cTAB, cCR, cLF, Letter(k), cSP, cLF, cTAB>>
-      [] style = "none"   -> <<Letter(k)>>
-      [] style = "onlyws" -> IF k % 2 = 0 THEN <<cSP, cLF>> ELSE <<cSP, Letter(k), cSP>>
-      [] style = "inner"  -> <<Letter(k), cSP, cSP, Letter(k), cLF>>
+\* a style is [ws |-> name, padAt |-> set of symbols that carry pad token #k in their middle]
+\* (pads are used by MC_C14; they never touch a delimiter, so trimming is unaffected)
+Mid(sty, k) == IF k \in sty.padAt THEN <<Letter(k), PadBase + k - 1, Letter(k)>> ELSE <<Letter(k)>>   \* pad token #k-1 (0-based on the Go side)
+TextOfSym(sty, k) ==
+    CASE sty.ws = "sp"     -> <<cSP>> \o Mid(sty, k) \o <<cSP>>
+      [] sty.ws = "lf"     -> <<cLF>> \o Mid(sty, k) \o <<cLF>>
+      [] sty.ws = "mix"    -> <<cSP, cTAB, cCR, cLF>> \o Mid(sty, k) \o <<cSP, cLF, cTAB>>
+      [] sty.ws = "none"   -> Mid(sty, k)
+      [] sty.ws = "onlyws" -> IF k % 2 = 0 /\ k \notin sty.padAt THEN <<cSP, cLF>> ELSE <<cSP>> \o Mid(sty, k) \o <<cSP>>
+      [] sty.ws = "inner"  -> Mid(sty, k) \o <<cSP, cSP, Letter(k), cLF>>
+Sty(c) == [ws |-> c.style, padAt |-> IF "padAt" \in DOMAIN c THEN c.padAt ELSE {}]
 
 \* ---- layouts over the piece sequence ------------------------------------------------------
 IsDelim(p) == "o" \in DOMAIN p \/ "cl" \in DOMAIN p
 IsOpen(p) == "o" \in DOMAIN p
-IsSymPiece(p) == "c" \in DOMAIN p /\ Len(p.c) = 1 /\ IsPad(p.c[1])
+IsSymPiece(p) == "c" \in DOMAIN p /\ Len(p.c) = 1 /\ IsSym(p.c[1])
 
 \* delimiter number of piece i (1-based count of delimiter pieces up to i)
 DelimNo(ps, i) == Cardinality({j \in 1..i : IsDelim(ps[j])})
@@ -79,7 +85,7 @@ DashedPieces(ps, D, style) ==
             LET d == DelimNo(ps, i) IN
             IF IsOpen(ps[i]) THEN W(IF d \in D THEN ps[i].o \o "-" ELSE ps[i].o)
             ELSE W(IF d \in D THEN "-" \o ps[i].cl ELSE ps[i].cl)
-        ELSE IF IsSymPiece(ps[i]) THEN C(TextOfSym(style, ps[i].c[1] - PadBase))
+        ELSE IF IsSymPiece(ps[i]) THEN C(TextOfSym(style, ps[i].c[1] - SymBase))
         ELSE ps[i]]
 
 \* which side(s) of symbol piece i are trimmed under D
@@ -90,17 +96,17 @@ Trimmed(t, l, r) == LET a == IF l THEN TrimL(t) ELSE t IN IF r THEN TrimR(a) ELS
 HandPieces(ps, D, style) ==
     [i \in 1..Len(ps) |->
         IF IsDelim(ps[i]) THEN (IF IsOpen(ps[i]) THEN W(ps[i].o) ELSE W(ps[i].cl))
-        ELSE IF IsSymPiece(ps[i]) THEN C(Trimmed(TextOfSym(style, ps[i].c[1] - PadBase), TrimLeftOf(ps, i, D), TrimRightOf(ps, i, D)))
+        ELSE IF IsSymPiece(ps[i]) THEN C(Trimmed(TextOfSym(style, ps[i].c[1] - SymBase), TrimLeftOf(ps, i, D), TrimRightOf(ps, i, D)))
         ELSE ps[i]]
 
 \* trimmed text of each symbol of template body ps (symbols are unique per template set)
 SymTexts(ps, D, style) ==
-    {[k |-> ps[i].c[1] - PadBase, t |-> Trimmed(TextOfSym(style, ps[i].c[1] - PadBase), TrimLeftOf(ps, i, D), TrimRightOf(ps, i, D))]
+    {[k |-> ps[i].c[1] - SymBase, t |-> Trimmed(TextOfSym(style, ps[i].c[1] - SymBase), TrimLeftOf(ps, i, D), TrimRightOf(ps, i, D))]
         : i \in {j \in 1..Len(ps) : IsSymPiece(ps[j])}}
 
 Subst(out, table) ==
     Flatten([i \in 1..Len(out) |->
-        IF IsPad(out[i]) THEN (CHOOSE e \in table : e.k = out[i] - PadBase).t ELSE <<out[i]>>])
+        IF IsSym(out[i]) THEN (CHOOSE e \in table : e.k = out[i] - SymBase).t ELSE <<out[i]>>])
 
 \* ---- cases -----------------------------------------------------------------------------------
 \* a layout assigns a dash set to the entry template only (the other templates stay plain)
@@ -116,15 +122,15 @@ Cases == UNION {{[s |-> name, D |-> D, style |-> style] : D \in DashSets(NDelims
                 : name \in DOMAIN Corpus}
 
 AllTexts(c) ==
-    UNION {SymTexts(Pieces(c.s, t), IF t = "main" THEN c.D ELSE {}, c.style) : t \in DOMAIN Corpus[c.s]}
+    UNION {SymTexts(Pieces(c.s, t), IF t = "main" THEN c.D ELSE {}, Sty(c)) : t \in DOMAIN Corpus[c.s]}
 
 Ref(c) == Render(MkW(Corpus[c.s], {"upper"}, {}, NoFault), "main", Ctx)
 Expected(c) == Subst(Ref(c).out, AllTexts(c))
 
 SourcesOf(c, hand) ==
     [t \in DOMAIN Corpus[c.s] |->
-        IF hand THEN HandPieces(Pieces(c.s, t), IF t = "main" THEN c.D ELSE {}, c.style)
-        ELSE DashedPieces(Pieces(c.s, t), IF t = "main" THEN c.D ELSE {}, c.style)]
+        IF hand THEN HandPieces(Pieces(c.s, t), IF t = "main" THEN c.D ELSE {}, Sty(c))
+        ELSE DashedPieces(Pieces(c.s, t), IF t = "main" THEN c.D ELSE {}, Sty(c))]
 
 CaseOf(c) ==
     [prop |-> "C13", key |-> ToJson(c),
